@@ -344,12 +344,54 @@ def c10_aliases(variant: int, virt: int, nsdepth: int, members: int, ign: int) -
     return ok
 
 
+KF_FOREIGN = [
+    "namespace other { template<T> class Box { Box(); T get() const; }; }\nnamespace gtsam { class Point { Point(); }; typedef other::Box<gtsam::Point> BoxP; }",
+    "namespace gtsam { class Point { Point(); }; typedef lib::deep::Box<double> BoxD; }\nnamespace lib { namespace deep { template<T> class Box { Box(T a); void put(T a) const; }; } }",
+]
+
+
+def foreign_typedef_problems(text):
+    """internal consistency of what the toolbox says about one class: the pointer property a classdef declares is the one
+    its methods use; every collector the MEX routines use is declared"""
+    import re
+    files, cpp, _w = pipe.matlab(text)
+    problems = []
+    for name, body in sorted(files.items()):
+        if not name.endswith(".m") or "classdef" not in body:
+            continue
+        declared = set(re.findall(r"^\s*(ptr_\w+) = 0", body, re.M))
+        used = set(re.findall(r"\bobj\.(ptr_\w+)", body))
+        if used - declared:
+            problems.append("%s declares the pointer property %s and uses %s" % (name, sorted(declared), sorted(used - declared)))
+    decl = set(re.findall(r"static Collector_\w+ (collector_\w+);", cpp))
+    used = set(re.findall(r"\b(collector_\w+)\.(?:insert|find|erase|begin|end)", cpp))
+    if used - decl:
+        problems.append("MEX routines use the collectors %s, declared are %s" % (sorted(used - decl), sorted(decl)))
+    return problems
+
+
+def c10_kf_foreign_typedef(which: int) -> bool:
+    """
+    Witness replay for known finding C10-foreign-namespace-typedef (a typedef written in another namespace than its template:
+    the classdef and the MEX source name the class partly after the typedef's namespace and partly after the template's).
+    pre: 0 <= which <= 1
+    post: _
+    """
+    which = pick(which, 0, 2)
+    with concrete():
+        problems = foreign_typedef_problems(KF_FOREIGN[which])
+        ok = not problems or _fail(text=KF_FOREIGN[which], problems=problems)
+    reached()
+    return ok
+
+
 def conds(tier):
     q = tier == "quick"
     t = (lambda x, y: x) if q else (lambda x, y: y)
     M = "harness.c10"
     bc = "%d first classes x %s second classes x %%s%s" % (NREP, "%d representative" % len(BREPS) if q else "%d" % NREP, "" if q else " x 3 ignore choices")
     return [
+        xh.Cond(M, "c10_kf_foreign_typedef", 60, path_timeout=60, kind="shape-bounded", bounds="witness of a listed known finding", needs_confirm=False),
         xh.Cond(M, "c10_aliases", t(200, 600), kind="shape-bounded", examples=["variant=0, virt=1, nsdepth=1, members=1, ign=0", "variant=1, virt=0, nsdepth=2, members=0, ign=1", "variant=2, virt=1, nsdepth=0, members=2, ign=1", "variant=0, virt=1, nsdepth=2, members=1, ign=1"],
                 bounds="3 alias layouts x virtual x namespace depth 0-2 x 3 member sets x one name ignored | none"),
         xh.Cond(M, "c10_serialization", t(420, 1800), kind="shape-bounded", path_timeout=90, examples=["a=2, b=0, sa=1, sb=0, boost=1, layout=0, ign=0", "a=1, b=3, sa=1, sb=1, boost=0, layout=1, ign=1"],
